@@ -191,6 +191,8 @@ const (
 	fSplit   = 128
 	fWide    = 256
 	fProbe   = 512
+	fBatch   = 1024
+	fRemove  = 2048
 )
 
 // request kinds of HarnessWorld
@@ -228,9 +230,9 @@ func init() {
 	register(&CheckSpec{ID: "C01", Patterns: []string{pkgServer},
 		Jobs: func(tier string) []*JobCfg {
 			if tier == "thorough" {
-				return []*JobCfg{pipe(1, 1, 6, allKinds), pipe(1, 2, 10, allKinds), pipe(1, 3, 9, kG|kM|kP|kU|kQ), world(1, 2, 0, 9, kG|kM, fBackErr), world(1, 2, 0, 9, kG|kM|kP, fSplit), world(1, 1, 1, 8, kG|kM|kP, 0), worldO(1, 2, 0, 8, kM|kP, 0), world(1, 2, 0, 8, allKinds, fWide)}
+				return []*JobCfg{pipe(1, 1, 6, allKinds), pipe(1, 2, 10, allKinds), pipe(1, 3, 9, kG|kM|kP|kU|kQ), world(1, 2, 0, 9, kG|kM, fBackErr), world(1, 2, 0, 9, kG|kM|kP, fSplit), world(1, 1, 1, 8, kG|kM|kP, 0), worldO(1, 2, 0, 8, kM|kP, 0), world(1, 2, 0, 8, allKinds, fWide), world(1, 3, 0, 8, allKinds, fBatch)}
 			}
-			return []*JobCfg{pipe(1, 1, 6, allKinds), pipe(1, 2, 8, allKinds), world(1, 2, 0, 7, kG|kM, fBackErr), world(1, 2, 0, 7, kG|kP, fSplit), pipe(1, 3, 6, kG|kP|kQ)}
+			return []*JobCfg{pipe(1, 1, 6, allKinds), pipe(1, 2, 8, allKinds), world(1, 2, 0, 7, kG|kM, fBackErr), world(1, 2, 0, 7, kG|kP, fSplit), pipe(1, 3, 6, kG|kP|kQ), world(1, 3, 0, 6, kG|kM|kP|kU, fBatch)}
 		},
 		Bounds: func(tier string) string {
 			return "pipelines of 1..3 requests, each of a solver-chosen kind (GET, SET, two-key MGET over one or two nodes, PING, unknown command, wrong arity, QUIT last) with solver-chosen key bytes/owner, every schedule of up to 8 (quick) / 9 (thorough) events; thorough adds a second concurrent client"
@@ -240,9 +242,9 @@ func init() {
 	register(&CheckSpec{ID: "C09", Patterns: []string{pkgServer},
 		Jobs: func(tier string) []*JobCfg {
 			if tier == "thorough" {
-				return []*JobCfg{pipe(9, 2, 10, allKinds), pipe(9, 3, 9, kG|kM|kP), world(9, 3, 0, 9, kG|kM, fSplit), world(9, 2, 1, 8, kG|kM, 0), world(9, 2, 0, 8, kG|kM, fSplit|fBackErr)}
+				return []*JobCfg{pipe(9, 2, 10, allKinds), pipe(9, 3, 9, kG|kM|kP), world(9, 3, 0, 9, kG|kM, fSplit), world(9, 2, 1, 8, kG|kM, 0), world(9, 2, 0, 8, kG|kM, fSplit|fBackErr), world(9, 3, 0, 8, kG|kM|kP, fBatch|fSplit)}
 			}
-			return []*JobCfg{pipe(9, 2, 8, allKinds), world(9, 2, 0, 7, kG|kM, fSplit), world(9, 3, 0, 7, kG, fSplit)}
+			return []*JobCfg{pipe(9, 2, 8, allKinds), world(9, 2, 0, 7, kG|kM, fSplit), world(9, 3, 0, 7, kG, fSplit), world(9, 3, 0, 6, kG|kM, fBatch)}
 		},
 		Bounds: func(tier string) string {
 			return "liveness reduced to a one-step progress obligation: after EVERY backend-reply event in every schedule (2..3 requests, <= 8/9 events) no completed request is left at the head of the client's queue, i.e. the longest completed prefix has been written"
@@ -252,9 +254,9 @@ func init() {
 	register(&CheckSpec{ID: "C10", Patterns: []string{pkgServer},
 		Jobs: func(tier string) []*JobCfg {
 			if tier == "thorough" {
-				return []*JobCfg{pipe(10, 3, 10, kG|kS|kM), world(10, 2, 1, 8, kG|kS, 0), worldO(10, 2, 0, 9, kM|kS|kG, 0), world(10, 3, 0, 9, kG|kS, fWide), world(10, 2, 0, 8, kG|kS, fSplit)}
+				return []*JobCfg{pipe(10, 3, 10, kG|kS|kM), world(10, 2, 1, 8, kG|kS, 0), worldO(10, 2, 0, 9, kM|kS|kG, 0), world(10, 3, 0, 9, kG|kS, fWide), world(10, 2, 0, 8, kG|kS, fSplit), world(10, 3, 0, 8, kG|kS|kM, fBatch)}
 			}
-			return []*JobCfg{pipe(10, 2, 8, kG|kS|kM), pipe(10, 3, 8, kG|kS), world(10, 1, 1, 7, kG|kS, 0), worldO(10, 2, 0, 7, kM|kS, 0)}
+			return []*JobCfg{pipe(10, 2, 8, kG|kS|kM), pipe(10, 3, 8, kG|kS), world(10, 1, 1, 7, kG|kS, 0), worldO(10, 2, 0, 7, kM|kS, 0), world(10, 3, 0, 6, kG|kS|kM, fBatch)}
 		},
 		Bounds: func(tier string) string {
 			return "1..2 clients, 2..3 forwarded requests (GET/SET/MGET) with solver-chosen owners, every schedule up to 7/8 events; per backend connection the order of each client's requests is compared with that client's send order"
@@ -276,9 +278,9 @@ func init() {
 	register(&CheckSpec{ID: "C15", Patterns: []string{pkgServer},
 		Jobs: func(tier string) []*JobCfg {
 			if tier == "thorough" {
-				return []*JobCfg{world(15, 2, 0, 8, kG|kM, fLoss), world(15, 2, 0, 7, kG|kM, fLoss|fProbe), world(15, 1, 1, 7, kG|kM, fLoss), world(15, 2, 0, 8, kG|kM, fDial), world(15, 2, 0, 7, kG|kM, fLoss|fSplit), job(pkgServer, "HarnessC13", 0), job(pkgServer, "HarnessC13", 1)}
+				return []*JobCfg{world(15, 2, 0, 8, kG|kM, fLoss), world(15, 2, 0, 7, kG|kM, fLoss|fProbe), world(15, 1, 1, 7, kG|kM, fLoss), world(15, 2, 0, 8, kG|kM, fDial), world(15, 2, 0, 7, kG|kM, fLoss|fSplit), job(pkgServer, "HarnessC13", 0), job(pkgServer, "HarnessC13", 1), world(15, 2, 0, 7, kG|kM, fRemove), world(15, 1, 1, 6, kG|kM, fRemove), world(15, 3, 0, 7, kG|kM, fLoss|fBatch)}
 			}
-			return []*JobCfg{world(15, 2, 0, 6, kG|kM, fLoss), world(15, 1, 0, 6, kG, fLoss|fProbe), world(15, 2, 0, 6, kG|kM, fDial), job(pkgServer, "HarnessC13", 0)}
+			return []*JobCfg{world(15, 2, 0, 6, kG|kM, fLoss), world(15, 1, 0, 6, kG, fLoss|fProbe), world(15, 2, 0, 6, kG|kM, fDial), job(pkgServer, "HarnessC13", 0), world(15, 2, 0, 5, kG|kM, fRemove), world(15, 2, 0, 6, kG, fLoss|fBatch)}
 		},
 		Bounds: func(tier string) string {
 			return "pipelines of 2 requests (GET / two-key MGET), a backend connection lost at ANY point of every schedule up to 6/8 events (before the request is written, after it, after other replies), or dialling a node failing, or a redirect naming an unknown node; at quiescence every request is answered or its client closed"
@@ -288,9 +290,9 @@ func init() {
 	register(&CheckSpec{ID: "C16", Patterns: []string{pkgServer},
 		Jobs: func(tier string) []*JobCfg {
 			if tier == "thorough" {
-				return []*JobCfg{world(16, 2, 0, 9, kG|kM, fTimeout), world(16, 3, 0, 8, kG, fTimeout), world(16, 1, 1, 8, kG|kM, fTimeout), world(16, 2, 0, 8, kG|kM, fTimeout|fSplit)}
+				return []*JobCfg{world(16, 2, 0, 9, kG|kM, fTimeout), world(16, 3, 0, 8, kG, fTimeout), world(16, 1, 1, 8, kG|kM, fTimeout), world(16, 2, 0, 8, kG|kM, fTimeout|fSplit), world(16, 3, 0, 8, kG|kM, fTimeout|fBatch), world(16, 2, 1, 7, kG, fTimeout|fBatch)}
 			}
-			return []*JobCfg{world(16, 2, 0, 7, kG|kM, fTimeout), world(16, 3, 0, 6, kG, fTimeout)}
+			return []*JobCfg{world(16, 2, 0, 7, kG|kM, fTimeout), world(16, 3, 0, 6, kG, fTimeout), world(16, 2, 0, 6, kG, fTimeout|fBatch), world(16, 1, 1, 6, kG, fTimeout)}
 		},
 		Bounds: func(tier string) string {
 			return "pipelines of 2..3 requests (GET / two-key MGET), timeout 50 ms of model time, time passes beyond the timeout at ANY single point of every schedule up to 6/8 events, backends may answer before, after or never; at quiescence every request has exactly one reply, in order, the connection is open"
